@@ -10,8 +10,8 @@ CLAIMS = {
             "Structural proof of the formula clauses: log_w == L+P-Q, log Z == LSE(log_w)-log N, ESS identity, max-shifted logsumexp, rejection mask, symmetric operations only, no shift-dependent exp() reaches the protected outputs. Decides the algebra for all inputs at once; does not decide floating-point accuracy."),
     "C03": ("5 C03", "value numbering of flow wrappers: Jacobian sign conventions, must-pass-through inverse_rescale, constructor keyword/attribute agreement",
             "Structural necessary conditions per flow back-end: sign and provenance of both Jacobian terms, draws routed through the data transform, the data transform attached from the instance options. Normalisation of the third-party density is not decided."),
-    "C04": ("5 C04", "value numbering: forward/inverse log-Jacobian antisymmetry at the corresponding point, symbolic round trip of rational maps, composite stage-order/mask/accumulation extraction over all guard combinations",
-            "Proves antisymmetry and (where rational) the round trip symbolically for every transform class and all 8 on/off combinations of the composite; a consistent error on both members of a pair is invisible."),
+    "C04": ("5 C04", "value numbering + syntax-directed symbolic differentiation with a log-abs normal form (log-Jacobian == log|derivative|), forward/inverse antisymmetry, symbolic round trip of rational maps, composite stage-order/mask/accumulation extraction over all guard combinations",
+            "Proves for every element-wise transform that the reported forward and inverse log-Jacobians equal the column sum of log|derivative| of the folded map (symbolic differentiation + log-abs normal form), antisymmetry at the corresponding point, the symbolic round trip of rational maps, and order/mask/accumulation for all 8 on/off combinations of the composite."),
     "C05": ("5 C05", "value numbering of every kernel target against (1-beta)Q + beta(L+P) + J; NaN-map idiom match; binding of beta in mutate()",
             "Proves the tempered-target identity, the NaN -> -inf map and the beta binding for every sampler class reachable by MRO, including kernels whose packages are absent."),
     "C06": ("5 C06", "path-sensitive constant propagation (division by a definite zero), CFG exit/once-per-iteration analysis of the SMC loop, ranking argument over the option prologue, value numbering of the clamp/floor/snap",
